@@ -23,6 +23,7 @@ PLAN = {
 }
 CLI_SAMPLE = {'quick': 400, 'thorough': 4000}
 KF_TOP = 'zero-context-hunk-at-top-of-file'
+KF_EMPTY = 'git-creation-or-deletion-of-empty-file'
 
 
 def kind_of(hs):
@@ -185,6 +186,13 @@ def check(prop, tier):
                 for j in js:
                     j['id'] = len(jobs); jobs.append(j)
             if k == 0:
+                # the pair (absent, empty) has no line difference: only the git dialect can express it
+                for name, a, patch, allowed in (
+                        ('git-empty-create', None, b'diff --git a/f.c b/f.c\nnew file mode 100644\nindex 0000000..e69de29\n', ['']),
+                        ('git-empty-delete', '', b'diff --git a/f.c b/f.c\ndeleted file mode 100644\nindex e69de29..0000000\n', [None])):
+                    for rev in (False,):
+                        jobs.append({'id': len(jobs), 'ci': 0, 'c': 0, 'dialect': name, 'rev': rev, 'a': a, 'patch': patch.hex(), 'strip': 1, 'reverse': rev, 'fuzz': 0,
+                                     'allowed': allowed, 'name': 'f.c', 'nh': 0, 'ambiguous': False, 'kind': 'M', 'a_abs': a is None, 'b_abs': allowed == [None]})
                 gj = gnu_diff_jobs(cases, seed(), 600 if tier == 'quick' else 5000)
                 for j in gj:
                     j['id'] = len(jobs); jobs.append(j)
@@ -204,7 +212,10 @@ def check(prop, tier):
                 o = obs.get(j['id'], {})
                 refused_cleanly = (o.get('status') == 'ok' and len(o.get('reports', [])) == 1 and not o['reports'][0][0]
                                    and o.get('out') == j['a'])
-                if j['ambiguous'] and j['c'] == 0 and refused_cleanly:
+                if j['dialect'] in ('git-empty-create', 'git-empty-delete') and o.get('status') == 'ok' and o.get('out') == j['a']:
+                    res.violation(KF_EMPTY, 'a git-style creation/deletion of an EMPTY file (no hunks) is accepted but does nothing: ' + why,
+                                  {'patch': bytes.fromhex(j['patch']).decode('latin-1'), 'observed': o})
+                elif j['ambiguous'] and j['c'] == 0 and refused_cleanly:
                     known += 1
                     res.violation(KF_TOP, 'context-free single hunk at the top of a non-empty file is taken for a creation/deletion: ' + why, detail)
                 else:
